@@ -9,7 +9,7 @@ TRH = os.environ.get("VERIF_TRH") or os.path.join(HARNESS, "target", "debug", "t
 TRDRIVER = os.path.join(LEAN, ".lake", "build", "bin", "trdriver")
 WORK = os.path.join(ROOT, "work")
 REPLAYS = os.path.join(ROOT, "replays")
-EVIDENCE = os.path.join(ROOT, "evidence")
+EVIDENCE = os.environ.get("VERIF_EVIDENCE_DIR") or os.path.join(ROOT, "evidence")   # the sensitivity tools redirect it
 STD_AXIOMS = {"propext", "Classical.choice", "Quot.sound"}
 ENV = dict(os.environ, CARGO_NET_OFFLINE="true")
 REPO = os.environ.get("VERIF_REPO", "/repo")
